@@ -114,6 +114,10 @@ def run(ctx, rep):
     n_shared = scan_shared_readonly(ctx, eff, rep, region, whitelisted, "P1", exempt_scopes=())
     rep.floor("P1", 8, "shared tables read by the translators")
 
+    # P2c: a dict filled while translating is observed by key look-ups only -- its length / emptiness / iteration order would
+    # make a result depend on which inputs earlier calls happened to see
+    from rules.C19 import check_read_through
+    check_read_through(ctx, eff, rep, region, "P2", whole_only=True)
     # P10: interpreter-wide state is not written either (it outlives the call like module state does)
     from rules.shared import check_no_process_global_writes
     check_no_process_global_writes(ctx, rep, region, "P10")
